@@ -267,7 +267,9 @@ def codepoints_quick(seed):
                 cps.add(b + dlt)
     rng = random.Random(seed)        # pure function of VERIF_SEED
     cps.update(rng.randrange(0x110000) for _ in range(1500))
-    return sorted(cps)
+    # the range boundaries and the larger code points first: if a busy machine makes a
+    # shard run out of its budget, what is left over are ordinary characters below 0x300
+    return sorted(cps, key=lambda o: (o < 0x300, o))
 
 
 def positioned(acc, cps=None, lo=None, hi=None, all_gaps=True):
